@@ -855,6 +855,22 @@ class SymX:
                     return ("list", tuple(("tup", tuple(a[1][i] if a[0] in ("tup", "list") else simp(("idx", a, C(i))) for a in t[2])) for i in range(n)))
         return t
 
+    def _list_valued(self, t, depth=0):
+        """A term that is known to be a list (the result of a loop that starts from [] and only appends / re-assigns lists) is shown
+        as a list to the `is None` test: `[]` stands for "some list"."""
+        if depth < 3 and t[0] == "res" and t[1] in self.loops:
+            L = self.loops[t[1]]
+            init = L.init.get(t[2])
+            if init is not None and init[0] == "list":
+                fo = classify(L).get(t[2])
+                if fo is not None and fo.kind in ("COLLECT", "ARGSET"):
+                    return ("list", ())
+        if depth < 3 and t[0] == "ite":
+            a, b = self._list_valued(t[2], depth + 1), self._list_valued(t[3], depth + 1)
+            if (a, b) != (t[2], t[3]):
+                return ("ite", t[1], a, b)
+        return t
+
     def _subscript(self, base, i, depth=0):
         if base[0] == "compr" and base[1] in self.loops:
             # a table computed position by position from another list: table[k] is the element expression at source[k]
@@ -1256,6 +1272,8 @@ class SymX:
                 right = ev(r)
                 o = {ast.Lt: "<", ast.LtE: "<=", ast.Gt: ">", ast.GtE: ">=", ast.Eq: "==", ast.NotEq: "!=",
                      ast.In: "in", ast.NotIn: "notin", ast.Is: "is", ast.IsNot: "isnot"}[type(op)]
+                if o in ("is", "isnot") and C(None) in (left, right):
+                    left, right = self._list_valued(left), self._list_valued(right)
                 parts.append(simp(("cmp", o, left, right)))
                 left = right
             return mk_and(*parts)
